@@ -482,7 +482,7 @@ fn sized_vec(len: usize, b: &[u8; BMAX]) -> Vec<u8> {
 }
 /// image: record A (used, the one rewritten / or a used bystander when a new record is added),
 /// slot B (free or used), record C (used neighbour at the end).  One real write_piece.
-fn val_write(is_new: bool) {
+fn val_write(is_new: bool, b_is_free: bool) {
     set_key_file(false);
     let mut f = VarFile::model(vp::piece_mgr());
     let sa = any_slot_size();
@@ -496,7 +496,7 @@ fn val_write(is_new: bool) {
     let oc = ob + sb as u64;
     let e0 = oc + sc as u64;
     f.slots[0] = used_val(oa, sa, la, kani::any());
-    let b_free: bool = kani::any();
+    let b_free: bool = b_is_free;
     f.slots[1] = if b_free {
         free_slot(ob, sb, 0)
     } else {
@@ -577,14 +577,11 @@ fn val_write(is_new: bool) {
     core::mem::forget(out);
     core::mem::forget(vf);
 }
-rproof!(r_val_rewrite, r_val_rewrite_body());
-fn r_val_rewrite_body() {
-    val_write(false);
-}
-rproof!(r_val_new, r_val_new_body());
-fn r_val_new_body() {
-    val_write(true);
-}
+// (one harness per shape of slot B: the two halves run in parallel)
+rproof!(r_val_rewrite_bfree, val_write(false, true));
+rproof!(r_val_rewrite_bused, val_write(false, false));
+rproof!(r_val_new_bfree, val_write(true, true));
+rproof!(r_val_new_bused, val_write(true, false));
 
 /// delete_piece: the slot goes onto the free list of its own size
 rproof!(r_val_delete, r_val_delete_body());
@@ -670,7 +667,7 @@ fn key_of(len: usize, b: &[u8; BMAX]) -> DbBytes {
 }
 /// one real KeyFile::write_piece / add_key_piece on an image A (used key record), B (free or
 /// used), C (used neighbour); symbolic key length, value offset and chain link
-fn key_write(is_new: bool) {
+fn key_write(is_new: bool, b_is_free: bool) {
     set_key_file(true);
     let mut f = VarFile::model(kp::piece_mgr());
     let sa = any_slot_size();
@@ -691,7 +688,7 @@ fn key_write(is_new: bool) {
     let oc = ob + sb as u64;
     let e0 = oc + sc as u64;
     f.slots[0] = used_key(oa, sa, la, ka, va, na);
-    let b_free: bool = kani::any();
+    let b_free: bool = b_is_free;
     f.slots[1] = if b_free { free_slot(ob, sb, 0) } else { used_key(ob, sb, 0, [0; BMAX], 0, 0) };
     f.slots[2] = used_key(oc, sc, lc, kani::any(), vc, nc);
     if b_free {
@@ -759,13 +756,9 @@ fn key_write(is_new: bool) {
     core::mem::forget(out);
     core::mem::forget(kfile);
 }
-rproof!(r_key_rewrite, r_key_rewrite_body());
-fn r_key_rewrite_body() {
-    key_write(false);
-}
-rproof!(r_key_new, r_key_new_body());
-fn r_key_new_body() {
-    key_write(true);
-}
+rproof!(r_key_rewrite_bfree, key_write(false, true));
+rproof!(r_key_rewrite_bused, key_write(false, false));
+rproof!(r_key_new_bfree, key_write(true, true));
+rproof!(r_key_new_bused, key_write(true, false));
 
 
